@@ -283,6 +283,9 @@ def check_ctor(run, F, fn, mapping):
             else:
                 pars = {x[1] for x in subterms(v) if x[0] == "var"} if v is not None else set()
                 cl = [x for x in subterms(v) if x[0] == "closure"] if v is not None else []
+                if not pars and v is not None and v[0] == "ctor" and v[1].endswith("::None") and \
+                        any(c[0] == "match" and c[1] == ("var", par) and opt_polarity(c) is False for c in p.conds):
+                    pars = {par}        # `None` on the path where the parameter itself is None (`match p { Some(x) => Some(f(x)), None => None }` is `p.map(f)`)
                 run.ob("R-BUILDERS", "%s: field %s <- parameter %s" % (fn, f, par), pars == {par},
                        "field %s is built from %s" % (f, sorted(pars) or tshow(v)), site(b), key="R-BUILDERS|%s|%s" % (fn, f))
         extra = set(fields) - set(mapping)
@@ -397,6 +400,14 @@ def check_builder(run, F, bty, spec, T):
                 want = "std::vec::Vec::<T, A>::push" if mode == "push" else "std::iter::Extend::extend"
                 cs = [t for t in p.trace if is_call(t) and t[1] in (want,)]
                 ok = len(cs) == 1 and self_field(cs[0][2][0]) == field and any(x == ("var", arg) for x in subterms(cs[0][2][1]))
+                if not ok and mode == "extend" and not cs:
+                    # `for x in arg { self.field.push(f(x)) }` extends the list by the same elements in the same order
+                    loops = [t for t in p.trace if is_call(t, "<for>") and any(x == ("var", arg) for x in subterms(t[2][0]))]
+                    if len(loops) == 1:
+                        bps = loops[0][3].get("paths", [])
+                        pushes = [t for bp in bps for t in bp.trace if is_call(t, "std::vec::Vec::<T, A>::push")]
+                        ok = len(bps) == 1 and not bps[0].conds and bps[0].kind == "fall" and len(pushes) == 1 and self_field(pushes[0][2][0]) == field and \
+                            any(isinstance(x, tuple) and x[0] == "elem" for x in subterms(pushes[0][2][1]))
                 why = [tshow(t)[:120] for t in p.trace if is_call(t)]
                 bad = [t for t in p.trace if is_call(t) and t[1] in ("std::vec::Vec::<T, A>::clear", "<assign>")]
                 ok = ok and not bad
